@@ -38,6 +38,7 @@ func statusIs(c *core.Ctx, v ssa.Value, names ...string) bool {
 }
 
 func runC34(c *core.Ctx) {
+	checkIndexRecordMatchesEntry(c, "C34.index-record")
 	minPeer, err := c.P.Const(pkNM, "MIN_PEER_NUM")
 	if err != nil {
 		c.Broken("anchor", "", "MIN_PEER_NUM", "", err.Error())
